@@ -290,7 +290,11 @@ func (g *vbGen) toml() string {
 		kv("unicast_only", verifh.B(r.Bool()))
 	}
 	if r.Chance(50) {
-		m := verifh.Pick(r, []int{0, 1, 1280, 1500, 9000, 65535, 65536, 1 + r.Intn(65536)})
+		m := verifh.Pick(r, []int{0, 1, 1280, 1500, 9000, 65535, 65536, 1 + r.Intn(65536), 1 + r.Intn(65536), 1 + r.Intn(65536)})
+		if r.Chance(4) {
+			m = verifh.Pick(r, []int{65537, 4294968796, -1}) // over the documented limit / wraps in 32 bits
+			g.tag("mtu:out-of-range")
+		}
 		kv("mtu", fmt.Sprint(m))
 		g.tag(fmt.Sprintf("mtu:%v", m != 0))
 	}
